@@ -671,6 +671,15 @@ func (fe *FnEnc) globalVal(st *State, pkg, name string, t types.Type) Term {
 			if _, ok := t.Underlying().(*types.Pointer); ok {
 				fe.emit("(assert (not (= " + n + " 0)))") // initialised by MustCompile / constructors
 			}
+			// sentinel errors of the module are told apart from whatever the standard library returns
+			if gs == sIface {
+				fe.declFun("own.err", []string{sIface}, sBool)
+				fe.emit("(assert (own.err " + n + "))")
+			}
+			// what a constant global refers to existed when the function was entered (objects made later are different)
+			if w := fe.wf(t, Term{n, gs}, fe.oldComp("alloc", sInt), 0); w.S != "true" {
+				fe.emit("(assert " + w.S + ")")
+			}
 		}
 		return Term{n, gs}
 	}
